@@ -70,7 +70,9 @@ class Sim:
             except CklRuntimeError as e:
                 out = {"kind": "rt", "val": safe_str(e.value),
                        "msg": safe_str(e.msg), "pos": safe_str(e.pos),
-                       "cls": "CklRuntimeError"}
+                       "cls": "CklRuntimeError",
+                       "trace": [safe_str(x) for x in
+                                 (getattr(e, "stacktrace", None) or [])]}
             except CklSyntaxError as e:
                 out = {"kind": "syn", "val": "", "msg": safe_str(e.msg),
                        "pos": safe_str(e.pos), "cls": "CklSyntaxError"}
